@@ -315,9 +315,19 @@ class Folder:
                     if not (o2 + w2 <= off or off + w <= o2):
                         del rec[p2]
         if isinstance(v, dict):
-            # a whole sub-record: its leaves
+            # a whole sub-record: its leaves; whatever overlaps the sub-record in another view of the union goes
             for k2 in [k3 for k3 in rec if k3.startswith(path + ".")]:
                 del rec[k2]
+            if lay is not None:
+                span = [lay[k3] for k3 in lay if k3.startswith(path + ".")]
+                if span:
+                    lo_ = min(o for o, w in span)
+                    hi_ = max(o + w for o, w in span)
+                    for p2 in list(rec):
+                        if p2 in lay and not p2.startswith(path + "."):
+                            o2, w2 = lay[p2]
+                            if not (o2 + w2 <= lo_ or hi_ <= o2):
+                                del rec[p2]
             for k2, v2 in v.items():
                 rec[path + "." + k2] = v2
             return
